@@ -500,9 +500,12 @@ func (g *G) StackedPath(env *Env) Path {
 		}
 		n := 2 + g.Intn(2)
 		for i := 0; i < n; i++ {
-			if g.Chance(0.5) {
+			switch g.Intn(5) {
+			case 0, 1:
 				s.Preds = append(s.Preds, g.PosPred(3))
-			} else {
+			case 2:
+				s.Preds = append(s.Preds, bin(g.Pick("and", "or"), g.PosPred(3), g.PosPred(3)))
+			default:
 				s.Preds = append(s.Preds, g.BoolPred(0, env))
 			}
 		}
